@@ -21,34 +21,5 @@ def plans(tier):
     ]
 
 
-def run(tier, pid="C02", props=("C02",)):
-    chk = vlib.Check(pid, tier)
-    sd = vlib.scratch(pid.lower())
-    binp = pc.build_lbsim(sd)
-    total_tr = 0
-    for name, c in plans(tier):
-        # M alone, exhaustive: state-based safety clauses
-        r = pc.tlc_cfg("MCPoolM", pc.mcfg_text(c), "m.cfg", workers=vlib.NCPU, timeout=1500)
-        chk.add_tlc("M exhaustive [%s]" % name, r)
-        if r.rc != 0:
-            chk.notes.append("MODEL-CEX in %s" % name)
-            vlib.log("MODEL-CEX (not a verdict) in M config " + name)
-        # every transition of M replayed on the real balancer
-        g = pc.tlc_cfg("MCPool", pc.cfg_text(c), "gen.cfg", workers=1, timeout=1500)
-        scripts, ntr = pc.scripts_from(g, name)
-        total_tr += ntr
-        tp = pc.replay(binp, scripts, sd, name)
-        chk.cov["traces_validated_against_impl"] += len(scripts)
-        for s in scripts:
-            chk.count_case([s["cfg"]["strategy"], len(s["steps"]), s["id"]])
-        pc.judge(chk, tp, scripts, set(props), sd, name)
-        if scripts:
-            chk.sample({"plan": name, "script": scripts[0]["id"], "strategy": scripts[0]["cfg"]["strategy"],
-                        "steps": scripts[0]["steps"][:10], "events": pc.segment(tp, scripts[0]["id"])[1:9]}, limit=6)
-    chk.cov["replayed_model_transitions"] = total_tr
-    chk.cov["exhaustive"] = True
-    chk.cov["rule"] = ("every transition of the TLA+ pool model (strategy x ejected subset x rotation x in-flight vector x "
-                       "window age x passive count) executed on the real LoadBalancer by covering walks; one case = one walk")
-    chk.assumptions += ["scripted RoundTrippers stand in for backends; one tick = 2 s virtual, windows 2k+1 s",
-                        "the admin listing (/v1/backends) is consulted only where the statement leaves a choice"]
-    return chk.finish()
+def run(tier):
+    return pc.run_check("C02", tier, ("C02",), plans(tier))
